@@ -2,6 +2,7 @@ package gvc
 
 import (
 	"fmt"
+	"time"
 	"os"
 	"go/constant"
 	"go/types"
@@ -150,6 +151,8 @@ type VC struct {
 	pure     int
 	noFacts  int
 	onlyOpcase string
+	deadline time.Time // VC generation of one function must finish by then
+	closureByRef map[string]*closureInfo // closure values created on the way (for captured(...))
 	pruned   int // branches cut because their path condition is unsatisfiable
 	atUsed   map[string]int // site assertions (at closure / at call) that were applicable at least once
 	selfWritten map[string]bool // heap keys this function may write itself
